@@ -34,7 +34,7 @@ func run(cfg lib.Cfg) error {
 	// lib.NewRNG(seed) streams of neighbouring seeds are shifts of one another (they
 	// re-synchronise after a few cases); Fork() starts from a hashed state instead
 	r := lib.NewRNG(cfg.Seed).Fork()
-	n := 290
+	n := 255
 	if cfg.Thorough() {
 		n = 4000
 	}
